@@ -201,6 +201,7 @@ inductive Origin where
   | commentClose       -- ` -->`
   | status             -- self.status
   | user (raw : Text)  -- the rendering of a supplied text: explanation, detail, comment, environ / header value
+  | markup (raw : Text) -- what the `__html__` of a markup object returned (inserted verbatim in the HTML form)
 deriving Repr, DecidableEq
 
 structure Piece where
@@ -230,25 +231,34 @@ def lookupLastP (k : Text) : List (Text × List Piece) → Option (List Piece)
 
 def userPiece (f : Form) (raw : Text) : Piece := ⟨.user raw, escapeOf f raw⟩
 
-def htmlCommentP (f : Form) (comment : Text) : List Piece :=
+/-- the piece for a value that may be a markup object -/
+def valPiece (f : Form) (raw : Text) (html : Option Text) : Piece :=
+  match f, html with
+  | .html, some h => ⟨.markup raw, h⟩
+  | _, _ => userPiece f raw
+
+def htmlCommentP (f : Form) (comment : Text) (html : Option Text := none) : List Piece :=
   if comment.isEmpty then []
   else match f with
-    | .html => [⟨.commentOpen, ['<', '!', '-', '-', ' ']⟩, userPiece f comment, ⟨.commentClose, [' ', '-', '-', '>']⟩]
+    | .html => [⟨.commentOpen, ['<', '!', '-', '-', ' ']⟩, valPiece .html comment html, ⟨.commentClose, [' ', '-', '-', '>']⟩]
     | _ => [userPiece f comment]
+
+/-- the five standard values of `args`, as pieces -/
+def specBase (f : Form) (e : Exc) : List (Text × List Piece) :=
+  let comment := orEmpty e.comment
+  let commentHtml := orHtml comment e.commentHtml
+  [(['b', 'r'], [⟨.br, brOf f⟩]),
+   (['e', 'x', 'p', 'l', 'a', 'n', 'a', 't', 'i', 'o', 'n'], [valPiece f e.explanation e.explanationHtml]),
+   (['d', 'e', 't', 'a', 'i', 'l'], [valPiece f (orEmpty e.detail) (orHtml (orEmpty e.detail) e.detailHtml)]),
+   (['c', 'o', 'm', 'm', 'e', 'n', 't'], [valPiece f comment commentHtml]),
+   (['h', 't', 'm', 'l', '_', 'c', 'o', 'm', 'm', 'e', 'n', 't'], htmlCommentP f comment commentHtml)]
 
 /-- the values of `args`, as pieces -/
 def specArgs (f : Form) (e : Exc) (environ : List (Text × Text)) : List (Text × List Piece) :=
-  let comment := orEmpty e.comment
-  let base : List (Text × List Piece) :=
-    [(['b', 'r'], [⟨.br, brOf f⟩]),
-     (['e', 'x', 'p', 'l', 'a', 'n', 'a', 't', 'i', 'o', 'n'], [userPiece f e.explanation]),
-     (['d', 'e', 't', 'a', 'i', 'l'], [userPiece f (orEmpty e.detail)]),
-     (['c', 'o', 'm', 'm', 'e', 'n', 't'], [userPiece f comment]),
-     (['h', 't', 'm', 'l', '_', 'c', 'o', 'm', 'm', 'e', 'n', 't'], htmlCommentP f comment)]
   if e.custom then
-    base ++ (environ.filter (fun kv => !envKeySkipped kv.1)).map (fun kv => (kv.1, [userPiece f kv.2]))
+    specBase f e ++ (environ.filter (fun kv => !envKeySkipped kv.1)).map (fun kv => (kv.1, [userPiece f kv.2]))
          ++ e.headers.map (fun kv => (kv.1.map asciiLower, [userPiece f kv.2]))
-  else base
+  else specBase f e
 
 def pageEnvP (status : Text) (body : List Piece) (k : Text) : Option (List Piece) :=
   if k = ['s', 't', 'a', 't', 'u', 's'] then some [⟨.status, status⟩] else if k = ['b', 'o', 'd', 'y'] then some body else none
@@ -273,6 +283,7 @@ def userPiecesClean (f : Form) (ps : List Piece) : Bool :=
   ps.all fun p =>
     match p.origin with
     | .user raw => p.text == escapeOf f raw && (f != .html || (p.text.all (fun c => !isMeta c) && entitiesOk p.text))
+    | .markup _ => f == .html
     | _ => true
 
 /-! ## JSON reader (objects whose members are strings) -/
